@@ -44,7 +44,8 @@ def atom_specs(tier):
             ("python_version", ">", "3.8", True), ("python_version", "<=", "3.7", True),
             ("python_version", ">", "3", False), ("python_version", ">=", "3", False), ("python_version", "<", "3.10", False),
             ("python_version", "<", "4.0", False), ("python_version", "!=", "3.7.0", False),
-            ("python_version", ">=", "3.8.0", False), ("python_version", "~=", "3.7.0", False)]
+            ("python_version", ">=", "3.8.0", False), ("python_version", "~=", "3.7.0", False), ("python_version", "~=", "3.7", False),
+            ("python_version", ">=", "3.9", False)]
     for op in ("<", "<=", "==", "!=", ">=", ">"):
         for v in ("3.7.2", "3.8.0"):
             out.append(("python_full_version", op, v, False))
@@ -269,14 +270,37 @@ def explore(chk, judge_name, budget2=None, want_keys=False):
                     for x in xs:
                         fam.append((x, y, z))
     rnd.shuffle(fam)
-    nfam = 1200 if tier == "quick" else 40000
+    nfam = 1600 if tier == "quick" else 40000
     stats["level2_shared_child_family"] = min(nfam, len(fam))
     stats["level2_shared_child_family_space"] = len(fam)
     for i, (x, y, z) in enumerate(fam[:nfam]):
-        if i % 2 == 0:
+        sel = i % 4
+        if sel == 0:
             pairs.append((("MultiMarker", x, y), ("MultiMarker", x, z), "|"))
-        else:
+        elif sel == 1:
             pairs.append((("MarkerUnion", x, y), ("MarkerUnion", x, z), "&"))
+        elif sel == 2:
+            pairs.append((("MarkerUnion", x, y), ("MarkerUnion", x, z), "|"))     # same-kind: shared member must not be duplicated
+        else:
+            pairs.append((("MultiMarker", x, y), ("MultiMarker", x, z), "&"))
+    # (e) mixed compounds sharing one member: (x&y | p) | (p | z&w) and the dual — where the un-normalised candidate of union() can be
+    #     the least complex one, so duplicates must be removed by the constructors' flattening
+    nmix = 500 if tier == "quick" else 8000
+    vars_ = list(by_var)
+    for i in range(nmix):
+        var = vars_[rnd.randrange(len(vars_))]
+        if len(by_var[var]) < 2:
+            continue
+        y, z = rnd.sample(by_var[var], 2)
+        rest = [k for k in atom_keys if k[1] != var and not (k[1].startswith("python") and var.startswith("python"))]
+        if len(rest) < 3:
+            continue
+        x, w, pp = rnd.sample(rest, 3)
+        if i % 2 == 0:
+            pairs.append((("MarkerUnion", ("MultiMarker", x, y), pp), ("MarkerUnion", pp, ("MultiMarker", z, w)), "|"))
+        else:
+            pairs.append((("MultiMarker", ("MarkerUnion", x, y), pp), ("MultiMarker", pp, ("MarkerUnion", z, w)), "&"))
+    stats["level2_mixed_shared_member_family"] = nmix
     # (d) operands that only the PARSER produces (it calls MarkerUnion.of directly; `|` goes through cnf/dnf): `x and y or z` texts
     texts = []
     atom_texts = [_show_key(k) for k in atom_keys if not k[4]]
